@@ -89,4 +89,29 @@ mod axv_tuplelayout {
         kani::assume(k < 16);
         assert!(after[TupleHeader::SIZE + k] == body[k]);
     }
+    //@ob [C03,C18:tuple.clear_delete_mark_only_clears_the_mark] level=proved text="Tuple::clear_delete_mark removes the deleter id and changes nothing else (creator id, version, 16 payload bytes), for every header and payload; a later delete(xid) then stamps xid"
+    #[kani::proof]
+    #[kani::unwind(3)]
+    fn tuple_clear_delete_mark() {
+        let mut data = Payload::alloc_aligned(TupleHeader::SIZE + 16).unwrap();
+        let xmin: u64 = kani::any();
+        let old_xmax: Option<u64> = if kani::any() { let x: u64 = kani::any(); kani::assume(x < (1u64 << 63)); Some(x) } else { None };
+        let ver: u8 = kani::any();
+        let body: [u8; 16] = kani::any();
+        {
+            let buf = data.effective_data_mut();
+            TupleHeader::new(ver, xmin, old_xmax).write_to(buf, 0);
+            buf[TupleHeader::SIZE..TupleHeader::SIZE + 16].copy_from_slice(&body);
+        }
+        let mut t = Tuple { data };
+        assert!(t.clear_delete_mark().is_ok());
+        assert!(t.xmin() == xmin && t.version() == ver && t.xmax().is_none());
+        let xid: u64 = kani::any();
+        kani::assume(xid < (1u64 << 63));
+        assert!(t.delete(xid).is_ok());
+        assert!(t.xmax() == Some(xid));
+        let k: usize = kani::any();
+        kani::assume(k < 16);
+        assert!(t.effective_data()[TupleHeader::SIZE + k] == body[k]);
+    }
 }
